@@ -18,16 +18,17 @@ SPEC = tlc.SPEC
 # property -> tier -> [(module, cfg)]
 CORE = [('MC_core.tla', 'MC_core.cfg')]
 PLAN = {
-    'C01': {'quick': CORE, 'thorough': [('MC_core.tla', 'MC_core_big.cfg'), ('MC_core.tla', 'MC_err.cfg')]},
+    'C01': {'quick': CORE + [('MC_late.tla', 'MC_late.cfg')], 'thorough': [('MC_core.tla', 'MC_core_big.cfg'), ('MC_core.tla', 'MC_err.cfg'), ('MC_late.tla', 'MC_late.cfg')]},
     'C02': {'quick': CORE, 'thorough': [('MC_core.tla', 'MC_core_big.cfg'), ('MC_core.tla', 'MC_g1.cfg')]},
     'C03': {'quick': CORE + [('MC_hist.tla', 'MC_hist.cfg'), ('MC_core.tla', 'MC_live.cfg')], 'thorough': [('MC_core.tla', 'MC_live2.cfg'), ('MC_core.tla', 'MC_core_big.cfg'), ('MC_hist.tla', 'MC_hist.cfg'), ('MC_core.tla', 'MC_rec.cfg')]},
     'C04': {'quick': CORE + [('MC_core.tla', 'MC_live.cfg')], 'thorough': [('MC_core.tla', 'MC_core_big.cfg'), ('MC_core.tla', 'MC_live2.cfg')]},
     'C05': {'quick': CORE, 'thorough': [('MC_core.tla', 'MC_core_big.cfg'), ('MC_par.tla', 'MC_par.cfg')]},
-    'C06': {'quick': CORE, 'thorough': [('MC_core.tla', 'MC_core_big.cfg'), ('MC_par.tla', 'MC_par.cfg')]},
+    'C06': {'quick': CORE, 'thorough': [('MC_core.tla', 'MC_core_big.cfg'), ('MC_par.tla', 'MC_par.cfg'), ('MC_partime.tla', 'MC_partime.cfg')]},
     'C07': {'quick': [('MC_fwd.tla', 'MC_fwd.cfg')], 'thorough': [('MC_fwd.tla', 'MC_fwd.cfg'), ('MC_fwd.tla', 'MC_fwd2.cfg'), ('MC_fwd.tla', 'MC_live_fwd.cfg')]},
     'C08': {'quick': [('MC_fwd.tla', 'MC_fwd.cfg')], 'thorough': [('MC_fwd.tla', 'MC_fwd.cfg'), ('MC_fwd.tla', 'MC_fwd2.cfg')]},
     'C09': {'quick': CORE, 'thorough': [('MC_core.tla', 'MC_core_big.cfg'), ('MC_fwd.tla', 'MC_fwd.cfg'), ('MC_par.tla', 'MC_par.cfg')]},
-    'C10': {'quick': [('MC_core.tla', 'MC_time.cfg')], 'thorough': [('MC_core.tla', 'MC_time.cfg'), ('MC_core.tla', 'MC_time_big.cfg')]},
+    'C10': {'quick': [('MC_core.tla', 'MC_time.cfg'), ('MC_partime.tla', 'MC_partime_s.cfg')],
+            'thorough': [('MC_core.tla', 'MC_time.cfg'), ('MC_core.tla', 'MC_time_big.cfg'), ('MC_partime.tla', 'MC_partime_s.cfg'), ('MC_partime.tla', 'MC_partime.cfg')]},
     'C11': {'quick': [('MC_core.tla', 'MC_err.cfg')], 'thorough': [('MC_core.tla', 'MC_err.cfg')]},
     'C13': {'quick': [('MC_hist.tla', 'MC_hist.cfg')], 'thorough': [('MC_hist.tla', 'MC_hist.cfg'), ('MC_hist.tla', 'MC_hist_big.cfg')]},
     'C14': {'quick': [('MC_hist.tla', 'MC_hist.cfg')], 'thorough': [('MC_hist.tla', 'MC_hist.cfg'), ('MC_hist.tla', 'MC_hist_big.cfg')]},
@@ -35,6 +36,21 @@ PLAN = {
     'C18': {'quick': [('MC_one.tla', 'MC_expect_s.cfg')], 'thorough': [('MC_one.tla', 'MC_expect.cfg')]},
     'C17': {'quick': [('MC_wal.tla', 'MC_wal.cfg')], 'thorough': [('MC_wal.tla', 'MC_wal.cfg')]},
     'C15': {'quick': [('MC_core.tla', 'MC_idle.cfg')], 'thorough': [('MC_core.tla', 'MC_idle.cfg'), ('MC_core.tla', 'MC_idle_big.cfg')]},
+}
+
+
+# vacuity guard: actions that a configuration exists to exercise; checked whenever a run was made with -coverage
+REQUIRED = {
+    'MC_time.cfg': ['TimeoutFire', 'OwnerAbandon', 'HCancelAw', 'HCancelExit'],
+    'MC_partime_s.cfg': ['TimeoutFire', 'ParStart', 'PCancelWake', 'XAbandon', 'OwnerAbandon'],
+    'MC_late.cfg': ['DRegister'],
+    'MC_stop.cfg': ['DStopGo', 'DStopWaitEnd', 'DCancelRL'],
+    'MC_wal.cfg': ['WalWrite', 'WalOpen'],
+    'MC_expect_s.cfg': ['DExpectBegin', 'DExpectEnd'],
+    'MC_expect.cfg': ['DExpectBegin', 'DExpectEnd'],
+    'MC_hist.cfg': ['OwnerTail'],
+    'MC_err.cfg': ['HFinish'],
+    'MC_idle.cfg': ['DIdleBegin', 'DIdleRecheck'],
 }
 
 
@@ -46,6 +62,30 @@ def spec_hash(extra=''):
             h.update(open(os.path.join(SPEC, f), 'rb').read())
     h.update(extra.encode())
     return h.hexdigest()[:16]
+
+
+def action_counts(out, module='Bubus'):
+    """Per-action success counts from TLC's -coverage output.  Next is one wrapped disjunction, so TLC reports a single <Next>; the count
+    of an action is taken from the *last* covered line inside its definition (its final conjunct, usually the UNCHANGED: evaluated only
+    when every guard before it held)."""
+    src = open(os.path.join(SPEC, module + '.tla')).read().splitlines()
+    defs = []   # (name, first line, last line)
+    for i, line in enumerate(src, start=1):
+        m = re.match(r'^(\w+)(\([^)]*\))? ==', line)
+        if m:
+            if defs:
+                defs[-1][2] = i - 1
+            defs.append([m.group(1), i, len(src)])
+    cov = {}
+    for m in re.finditer(r'line (\d+), col \d+ to line (\d+), col \d+ of module %s: (\d+)' % module, out):
+        ln = int(m.group(1))
+        cov[ln] = max(cov.get(ln, 0), int(m.group(3)))
+    res = {}
+    for name, a, b in defs:
+        lines = [l for l in cov if a <= l <= b]
+        if lines:
+            res[name] = cov[max(lines)]
+    return res
 
 
 def run_config(module, cfg, coverage=False, timeout=3000, workers=16):
@@ -68,10 +108,7 @@ def run_config(module, cfg, coverage=False, timeout=3000, workers=16):
         m = re.search(r'Invariant (\w+) is violated', out)
         r['violated'] = m.group(1) if m else None
     if coverage:
-        acts = {}
-        for m in re.finditer(r'<(\w+) line \d+, col \d+ to line \d+, col \d+ of module (\w+)>: (\d+):(\d+)', out):
-            acts[m.group(1)] = acts.get(m.group(1), 0) + int(m.group(4))
-        r['action_counts'] = acts
+        r['action_counts'] = action_counts(out)
     if ok:
         json.dump(r, open(cf, 'w'))
     return r
@@ -86,10 +123,14 @@ def run_for(prop, tier, seed):
         if not os.path.exists(os.path.join(SPEC, cfg)):
             continue
         # per-action coverage (vacuity guard) on the configurations that finish quickly; the big ones run without it
-        r = run_config(module, cfg, coverage=(tier == 'thorough' and 'big' not in cfg and 'fwd' not in cfg and 'g1' not in cfg and 'par' not in cfg and 'live' not in cfg), timeout=10800)
+        r = run_config(module, cfg, coverage=(tier == 'thorough' and 'big' not in cfg and 'fwd' not in cfg and 'g1' not in cfg and cfg not in ('MC_par.cfg', 'MC_partime.cfg') and 'live' not in cfg), timeout=10800)
         res['configs'].append({k: v for k, v in r.items() if k != 'tail'})
         res['states'] += r['states']
         res['transitions'] += r['transitions']
+        missing = [a for a in REQUIRED.get(cfg, []) if 'action_counts' in r and not r['action_counts'].get(a)]
+        if missing:
+            res['machinery_failure'] = True
+            res['messages'].append('MACHINERY-FAILURE vacuous model run %s/%s: actions never taken: %s' % (module, cfg, missing))
         if not r['ok']:
             # the model does not depend on /repo: an unexplained witness or error here is a defect of the specification
             # (or a finding not yet recorded), to be confirmed against the code by replay before it is believed
